@@ -670,6 +670,15 @@ class BitString(base.SimpleAsn1Type):
 
         return value
 
+    def prettyOut(self, value):
+        try:
+            return str(value)
+
+        except ValueError:
+            # longer than the interpreter converts to decimal
+            # digits (sys.set_int_max_str_digits)
+            return hex(value)
+
     def prettyIn(self, value):
         if isinstance(value, SizedInteger):
             return value
